@@ -33,12 +33,12 @@ T = {
     "C15-A": ("C15", "JunctionTree.add_edge cycle test replaced by an edge-count shortcut", "tree still a disconnected forest (cliques added first) and an edge inside one component", ["C15"], True),
     "C15-B": ("C15", "get_random_cpds adds each CPD inside the loop", "inplace=True with an n_states dict whose value for a later node is unusable: the call raises after earlier CPDs were replaced", ["C15"], False),
     "C16-B": ("C16", "lru_cache on the pruned network keyed by engine identity, query variables and observed variable set", "one VE engine, two virtual-evidence queries of the same shape with different likelihoods", ["C16"], False),
-    "C17-A": ("C17", "forward_inference adds carried-over interface evidence after the per-slice query", "forward_inference, query variable in slice t >= 1, evidence on an interface node of slice t-1", ["C17"], False),
+    "C17-A": ("C17", "forward_inference adds carried-over interface evidence after the per-slice query", "forward_inference, query variable in slice t >= 1, evidence on an interface node of slice t-1", ["C17"], True),
     "C01-C": ("C01", "DiscreteFactor.normalize() leaves totals that are np.isclose to 0 un-normalised", "evidence probability below 1e-8 or virtual-evidence likelihoods on a tiny scale", ["C01"], False),
     "C01-D": ("C01", "pruned-network cache keyed on the set of nodes named in the question, not on their roles", "one VE engine: a question, then the same node set with a query variable and an evidence variable swapped, where pruning differs", ["C16"], False),
     "C15-C": ("C15", "DynamicBayesianNetwork.add_edge checks for a cycle before the edge is folded onto slices 0/1", "an edge named in slices >= 2 that closes a cycle in the template", ["C15"], False),
     "C15-D": ("C15", "non-inplace do() shares the CPD objects of the untouched nodes with the original", "a later in-place change of one network's CPD", ["C15", "C13"], False),
-    "C16-C": ("C16", "query() merges virtual-evidence entries into the caller's evidence dict", "hard evidence dict and virtual evidence in the same call", ["C16"], False),
+    "C16-C": ("C16", "query() merges virtual-evidence entries into the caller's evidence dict", "hard evidence dict and virtual evidence in the same call", ["C16"], True),
     "C06-C": ("C06", "zero parent-configuration counts detected with np.isclose instead of == 0", "weighted data whose total weight in a parent configuration is below 1e-8", ["C06"], False),
     "C06-D": ("C06", "scalar Dirichlet pseudo-count truncated to int", "prior_type='dirichlet' with a non-integer scalar pseudo_counts", ["C06"], False),
     "C09-C": ("C09", "NET writer lists parents in graph order while the table is laid out in the CPD's evidence order", "a node whose CPD evidence order differs from the graph's parent order, with unequal tables", ["C09"], False),
